@@ -95,6 +95,7 @@ type subWorld struct {
 	tainted  bool // ... with a custody payout smaller than the order book makes (bank >= available no longer checked)
 	inexact  bool // ... with a custody payout different from the order book's (bank == available no longer checked)
 	reported map[string]bool
+	leakClass string // why the last successful wager left subaccount tokens in the owner's free balance
 	parts    []subPart // participations created through the subaccount house deposit
 	gh       map[int]*subGhost
 	lockLog  map[int][]subLockRec // every lock granted by a successful create / top-up / grant
